@@ -64,7 +64,10 @@ def replay_history(hist):
     cb = Codebase("/")
     out = []
     for k, (pid, lens, r) in enumerate(hist):
-        cb.add_file(entry(pid, lens, k))
+        if pid == 0:
+            cb.aggregate()
+        else:
+            cb.add_file(entry(pid, lens, k))
         if r:
             out.append(read(cb, render=(k == len(hist) - 1)))
     return out
